@@ -29,6 +29,7 @@ var skipFields = map[string]string{
 	"Data.SQLite":                         "handle to a local database",
 	"MeasurementInfo.SchemaLock":          "mutex",
 	"MeasurementInfo.tagKeysTotal":        "derived cache filled only by unmarshal",
+	"MeasurementInfo.ObsOptions":          "derived: any lookup of the measurement (Data.Measurement) copies the database's Options pointer into it, also on behalf of commands that then fail; it never differs from the database's value",
 }
 
 // SkippedFields returns the skip list for the evidence file.
